@@ -87,6 +87,10 @@ def judgeReconf (st : ReconfSt) (fields : List String) : ReconfSt × String :=
     let t1 := if removedAlive then " TRIP removed_still_listening"
               else if obs1 ≠ cfg1 then " TRIP not_listening_as_configured" else ""
     (st, s!"ok listen 1{t0}{t1}")
+  | ["listenretry", held, obs] =>
+    -- a server whose address was busy at one update is bound by the next update that finds the address free
+    if held ≠ "1" then (st, "ok listenretry-unavailable 0")
+    else (st, "ok listenretry 1" ++ (if obs ≠ "1" then " TRIP not_listening_as_configured" else ""))
   | "invalid" :: _ => (st, "BADLINE reconf generated an invalid configuration")
   | ["update", comp, caches, ups, locs, srvs, "=>", obsImpl] =>
     if !st.active then (st, "ok skipped 0") else
@@ -121,7 +125,7 @@ def judgeReconf (st : ReconfSt) (fields : List String) : ReconfSt × String :=
       if mObs = obsImpl then (st', s!"ok update 1{trip}{trip2}")
       else
         let d := (List.zip (obsImpl.splitOn ";") (mObs.splitOn ";")).find? fun (a, b) => a ≠ b
-        ({ st' with active := false }, s!"DIFF reconf impl/model first difference {repr d}{trip}{trip2}")
+        ({ st' with active := false }, s!"DIFF reconf impl/model first difference impl={(d.map (·.1)).getD "?"} model={(d.map (·.2)).getD "?"}{trip}{trip2}")
   | _ => (st, "BADLINE reconf fields")
 
 end Pike.Driver
